@@ -1,6 +1,8 @@
 mod c01;
 mod c02;
 mod c03;
+mod c09;
+mod c12;
 mod gen;
 mod hx;
 mod oracle;
@@ -27,6 +29,8 @@ fn main() {
         "C01" => c01::run(),
         "C02" => c02::run(),
         "C03" => c03::run(),
+        "C09" => c09::run(),
+        "C12" => c12::run(),
         p => {
             eprintln!("explore: no E1 check for {}", p);
             std::process::exit(2);
